@@ -205,7 +205,11 @@ class ProgGen:
             return "between %d and %d %s%s%s" % (m, n, body, few, named)
         n = self.count([0, 1, 2, 3])
         self.features.add("exactly")
-        return "exactly %d %s" % (n, body)
+        if self.allow_named and self.r.random() < 0.08:
+            self.loopnames += 1
+            named = " named n%d" % self.loopnames
+            self.features.add("named-loop")
+        return "exactly %d %s%s" % (n, body, named)
 
     def loop_body(self, d):
         r = self.r.random()
@@ -325,9 +329,11 @@ class ProgGen:
     def predicate(self):
         self.features.add("predicate")
         r = self.r.random()
-        if r < 0.5:
+        if r < 0.45:
             return "begin return %s end" % self.pexpr(0, "b")
-        return "begin if %s then return true end return %s end" % (self.pexpr(0, "b"), self.pexpr(1, "b"))
+        if r < 0.8:
+            return "begin if %s then return true end return %s end" % (self.pexpr(0, "b"), self.pexpr(1, "b"))
+        return "begin if %s then return %s else return %s end end" % (self.pexpr(0, "b"), self.pexpr(1, "b"), self.pexpr(1, "b"))
 
     def transform(self):
         nm = "f%d" % (len(self.transforms) + 1)
@@ -336,10 +342,15 @@ class ProgGen:
         r = self.r.random()
         if r < 0.5:
             body = "return %s" % self.pexpr(0, self.r.choice("sn"))
-        elif r < 0.8:
+        elif r < 0.7:
             body = "if %s then return %s end return %s" % (self.pexpr(0, "b"), self.pexpr(0, "s"), self.pexpr(0, "n"))
-        else:
+        elif r < 0.8:
+            body = "if %s then set v to %s else set v to %s debug v end return v" % (self.pexpr(0, "b"), self.pexpr(0, "s"), self.pexpr(0, "s"))
+        elif r < 0.9:
             body = "set i to 0 set acc to '' loop if i >= matchLength then break end set acc to acc + 'z' set i to i + 1 end return acc"
+        else:
+            body = ("set i to 0 set acc to '' loop set i to i + 1 if i > matchLength then break end if (i %% %d) == 0 then continue end set acc to acc + %s end return acc"
+                    % (self.r.choice([2, 3]), self.r.choice(["'z'", "i", "match"])))
         return "set %s to transform %s end" % (nm, body)
 
     def command(self):
@@ -383,6 +394,10 @@ class ProgGen:
                 self.features.add("global")
         for _ in range(self.r.choice([0, 0, 0, 1])):
             parts.append(self.transform())
+        if self.r.random() < 0.05:
+            # `set name to matches <command>`: a stored command (it is generated, it is not run)
+            self.features.add("set-matches")
+            parts.append("set m%d to matches %s" % (len(parts) + 1, self.command()))
         for _ in range(self.r.choice([1, 1, 1, 2, 3])):
             parts.append(self.command())
         return "\n".join(parts)
